@@ -180,3 +180,40 @@ func PruneZero(v any) any {
 	}
 	return v
 }
+
+// OCISpecHostile draws an OCI spec that is legal for the runtime-spec types but
+// outside the "well-formed" precondition of C03: stacked mounts on one
+// destination (also as the last entries), repeated device paths, repeated and
+// odd environment entries, empty and relative destinations. Only robustness
+// (C08) is judged on these.
+func OCISpecHostile(t *rapid.T, label string) *oci.Spec {
+	dests := []string{"/data", "/m", "/mnt/MK", "/", "", "rel", "/data/", "/m/a"}
+	s := OCISpec(t, label, OCIOpts{MountDests: dests})
+	// stacked mounts
+	for i, n := 0, rapid.IntRange(0, 4).Draw(t, label+"stack"); i < n; i++ {
+		d := rapid.SampledFrom(dests).Draw(t, fmt.Sprintf("%sstackDest%d", label, i))
+		m := oci.Mount{Destination: d, Source: fmt.Sprintf("stack%d", i), Type: "tmpfs"}
+		switch rapid.IntRange(0, 2).Draw(t, fmt.Sprintf("%sstackPos%d", label, i)) {
+		case 0:
+			s.Mounts = append(s.Mounts, m)
+		case 1:
+			s.Mounts = append([]oci.Mount{m}, s.Mounts...)
+		default:
+			s.Mounts = append(s.Mounts, m, m)
+		}
+	}
+	if s.Linux != nil && rapid.Bool().Draw(t, label+"dupDev") {
+		for _, d := range s.Linux.Devices {
+			s.Linux.Devices = append(s.Linux.Devices, d)
+		}
+		s.Linux.Devices = append(s.Linux.Devices, oci.LinuxDevice{Path: "", Type: "x", Major: -1, Minor: -1})
+	}
+	if s.Process != nil && rapid.Bool().Draw(t, label+"oddEnv") {
+		s.Process.Env = append(s.Process.Env, "NOEQUALS", "", "=x", "A=1", "A=2", "A=1")
+		s.Process.User.AdditionalGids = append(s.Process.User.AdditionalGids, 0, 0, 7, 7)
+	}
+	if s.Hooks != nil && rapid.Bool().Draw(t, label+"oddHooks") {
+		s.Hooks.Prestart = append(s.Hooks.Prestart, oci.Hook{}, oci.Hook{Path: ""})
+	}
+	return s
+}
